@@ -427,6 +427,14 @@ def apply_fault(fmt, text, fault):
         except (ValueError, IndexError):
             return None
         lines[li] = " ".join(toks)
+    elif kind == "tag_bad":
+        # the TAG line of a counted record block (ATOM / BOND) is damaged: a letter lost, doubled or replaced
+        tl = [i for i, l in enumerate(lines) if l.strip() in ("@<TRIPOS>ATOM", "@<TRIPOS>BOND")]
+        if not tl:
+            return None
+        li = tl[fault[1] % len(tl)]
+        t_ = lines[li].strip()
+        lines[li] = [t_[:-1], t_ + "S", t_[:-2] + "Q" + t_[-1], t_[:9] + t_[10:]][fault[2] % 4]
     elif kind == "endpoint":
         # an endpoint of one BOND record becomes ANOTHER valid atom number: a well-formed file of another molecule - content is not
         # judged (COUNTS_ONLY), but whatever comes back still has the counts its own header declares
@@ -558,7 +566,7 @@ def strat_faults(tier):
     fault = st.one_of(
         st.tuples(st.just("del"), st.lists(i, min_size=1, max_size=2)).map(list),
         st.tuples(st.just("dup"), st.lists(i, min_size=1, max_size=2)).map(list),
-        st.tuples(st.sampled_from(["tok_bad", "tok_bad", "tok_del", "tok_ins", "renumber", "byte_bad", "endpoint"]), i, i).map(list),
+        st.tuples(st.sampled_from(["tok_bad", "tok_bad", "tok_del", "tok_ins", "renumber", "byte_bad", "endpoint", "tag_bad"]), i, i).map(list),
     )
     return st.fixed_dictionaries({"src": _srcs(tier), "route": st.sampled_from(["string", "string", "path"]), "faults": st.lists(fault, min_size=8, max_size=20)})
 
@@ -639,6 +647,6 @@ LEGS = [
     Leg("trunc_gen", check_trunc, classify, strategy=strat_trunc, n={"quick": 150, "thorough": 3000}, shards={"quick": 16, "thorough": 32},
         rule="generated multi-molecule files (2-5 molecules that differ in atom and bond counts), same exhaustive truncation per file"),
     Leg("faults", check_faults, classify, strategy=strat_faults, n={"quick": 400, "thorough": 10000}, shards={"quick": 16, "thorough": 32},
-        rule="per file 8-20 random faults: single/double line deletion or duplication, token made invalid for its field (non-numeric text in numeric fields, unknown type names), token deletion / insertion, a record's serial number changed to a neighbouring one, the last letter of a two-letter element symbol damaged, one byte of a token overwritten by a byte that is not text (file read by path), a bond endpoint changed to another valid atom number (only the counts clause is judged); a third of the files go through the path readers; "
+        rule="per file 8-20 random faults: single/double line deletion or duplication, token made invalid for its field (non-numeric text in numeric fields, unknown type names), token deletion / insertion, a record's serial number changed to a neighbouring one, the last letter of a two-letter element symbol damaged, one byte of a token overwritten by a byte that is not text (file read by path), a bond endpoint changed to another valid atom number (only the counts clause is judged), the tag line of an ATOM / BOND block damaged; a third of the files go through the path readers; "
              "non-trivial = at least one molecule header survives in the damaged text"),
 ]
